@@ -83,7 +83,7 @@ def run(ctx):
     for i in range(ctx.pick(60, 600)):
         cell = heat_cells[i % len(heat_cells)]
         nseg = rng.choice([1, 1, 2, 3])
-        base = gen.synth_case(rng, cell, costs=False, incentives=False, prices=False, addons=False, overpressure=False, nseg=nseg)
+        base = gen.synth_case(rng, cell, costs=False, incentives=False, prices=False, addons=False, overpressure=False, nseg=nseg, sdac=False)
         gen.cset(base, 'Maximum Temperature', rng.choice([400, 400, 250, 600]))
         if rng.random() < 0.5:
             k = rng.randint(1, nseg)
@@ -98,7 +98,7 @@ def run(ctx):
     # (b) percentage drawdown rate
     for i in range(ctx.pick(40, 400)):
         cell = heat_cells[i % len(heat_cells)]
-        base = gen.synth_case(rng, cell, costs=False, incentives=False, prices=False, addons=False, overpressure=False)
+        base = gen.synth_case(rng, cell, costs=False, incentives=False, prices=False, addons=False, overpressure=False, sdac=False)
         gen.cset(base, 'Maximum Drawdown', 1)
         vals = sorted(gen._round(gen._logu(rng, 1e-4, 0.05), 4) for _ in range(4))
         jobs.append({'fn': 'gxv.jobs:multi_run', 'args': {'texts': chain_texts(base, 'Drawdown Parameter', vals)}, 'timeout': 300,
@@ -106,7 +106,7 @@ def run(ctx):
     # (c) flow rate per well
     for i in range(ctx.pick(40, 400)):
         cell = cells[i % len(cells)]
-        base = gen.synth_case(rng, cell, costs=False, incentives=False, prices=False, addons=False, overpressure=False)
+        base = gen.synth_case(rng, cell, costs=False, incentives=False, prices=False, addons=False, overpressure=False, sdac=False)
         gen.cset(base, 'Ramey Production Wellbore Model', rng.choice([1, 1, 0]))
         vals = sorted(gen._round(rng.uniform(15, 140), 4) for _ in range(4))
         jobs.append({'fn': 'gxv.jobs:multi_run', 'args': {'texts': chain_texts(base, 'Production Flow Rate per Well', vals)},
@@ -118,7 +118,7 @@ def run(ctx):
         name, vals, kind = COST_INPUTS[i % len(COST_INPUTS)] if ctx.quick or rng.random() < 0.5 else rng.choice(COST_INPUTS)
         if kind == 'cost-heat-only' and cell[1] == 1:
             cell = (cell[0], 2, 9, cell[3])
-        base = gen.synth_case(rng, cell, costs=True, incentives=True, prices=True, addons=False, overpressure=False)
+        base = gen.synth_case(rng, cell, costs=True, incentives=True, prices=True, addons=False, overpressure=False, sdac=False)
         if name not in ('Total Capital Cost', 'Total O&M Cost'):
             # the varied input must actually feed the totals
             if 'Capital' in name or 'Drilling' in name:
